@@ -191,32 +191,27 @@ def _pullback_formulas(fc, Mr: RuleResult):
 def _projector(model: Model, O: RuleResult):
     f = model.func(PUB, "_ortho")
     pA, pB = f.params()[:2]
-    top = [s for s in f.node.body if isinstance(s, ast.If) and ast.unparse(s.test) == "D is None"]
-    if len(top) != 1:
+    from ..model import case_split
+    cs0 = case_split(f.node.body, "D is None")
+    if cs0 is None:
         raise AnalysisError("C06-O: _ortho no longer branches on `D is None`")
+    top = [cs0[3]]
 
     def cases(block):
-        """{'none' | 'mright' | 'mleft': return expression} of the inner if/elif/else on M / mright"""
-        out = {}
-        inner = [s for s in block if isinstance(s, ast.If)]
-        if len(inner) != 1:
+        """{'none' | 'mright' | 'mleft': (statements, definitions before the split)} of the case split on M / mright, whether it
+        is written as if/elif/else or as guard clauses"""
+        c1 = case_split(block, "M is None")
+        if c1 is None:
             raise AnalysisError("C06-O: a branch of _ortho lost its M / mright case split")
-        node = inner[0]
-        pre_defs = {s.targets[0].id: s.value for s in block if isinstance(s, ast.Assign) and isinstance(s.targets[0], ast.Name)}
-        while True:
-            t = ast.unparse(node.test)
-            key = "none" if t == "M is None" else ("mright" if t == "mright" else None)
-            if key is None:
-                raise AnalysisError("C06-O: unexpected test `%s` in _ortho" % t)
-            out[key] = (node.body, pre_defs)
-            if len(node.orelse) == 1 and isinstance(node.orelse[0], ast.If):
-                node = node.orelse[0]
-            else:
-                out["mleft"] = (node.orelse, pre_defs)
-                break
-        return out
+        none_s, rest_s, pre1, _ = c1
+        c2 = case_split(rest_s, "mright")
+        if c2 is None:
+            raise AnalysisError("C06-O: a branch of _ortho lost its mright case split")
+        right_s, left_s, pre2, _ = c2
+        pre_defs = {s_.targets[0].id: s_.value for s_ in pre1 + pre2 if isinstance(s_, ast.Assign) and isinstance(s_.targets[0], ast.Name)}
+        return {"none": (none_s, pre_defs), "mright": (right_s, pre_defs), "mleft": (left_s, pre_defs)}
     results = {}
-    for dcase, block in (("D=None", top[0].body), ("D given", top[0].orelse)):
+    for dcase, block in (("D=None", cs0[0]), ("D given", cs0[1])):
         for key, (body, pre) in cases(block).items():
             src = " ".join(ast.unparse(s) for s in body)
             locs = dict(pre)
@@ -308,26 +303,39 @@ def _dense_backward(model: Model, G: RuleResult):
         G.bad(bw, bw.node, "the dense backward must be V (F^-1 o (V^H G)) V^H + V (g (col) * V^H) with V^H = conj transpose (V^H %s, vector term %s, Hadamard %s, value term %s)" % (ok_vt, ok1, hadamard, ok2))
     from ..domains.ncalg import is_adjoint_expr
     sym_ok = False
-    last_res = [s_ for s_ in bw.node.body if isinstance(s_, ast.Assign) and ast.unparse(s_.targets[0]) == "result"]
+    rets = [r for r in own_nodes(bw.node) if isinstance(r, ast.Return)]
+    assigned = {t.id for s_ in ast.walk(bw.node) if isinstance(s_, (ast.Assign, ast.AugAssign)) for t in (s_.targets if isinstance(s_, ast.Assign) else [s_.target])
+                if isinstance(t, ast.Name)}
+    final = None
+    rname = None
+    if len(rets) == 1 and rets[0].value is not None:
+        v = rets[0].value
+        if isinstance(v, ast.Name):
+            # `result = <symmetrised>; ...; return result`
+            last = [s_ for s_ in bw.node.body if isinstance(s_, ast.Assign) and ast.unparse(s_.targets[0]) == v.id]
+            final, rname = (last[-1].value if last else None), v.id
+        else:
+            # `return <symmetrised expression of the accumulated name>` (the load-time normal form of the line above)
+            cands = sorted({n.id for n in ast.walk(v) if isinstance(n, ast.Name) and n.id in assigned})
+            final, rname = v, (cands[0] if len(cands) == 1 else None)
 
     def shook(e):
         x = is_adjoint_expr(e, False)
-        if x is not None and ast.unparse(x) == "result":
+        if x is not None and ast.unparse(x) == rname:
             return S("RH")
-        if isinstance(e, ast.Name) and e.id == "result":
+        if isinstance(e, ast.Name) and e.id == rname:
             return S("R")
         return None
-    if last_res:
+    if final is not None and rname is not None:
         try:
-            sym_ok = eval_expr(last_res[-1].value, {}, shook, bw.module.source).eq((S("R") + S("RH")) / C(2))
+            sym_ok = eval_expr(final, {}, shook, bw.module.source).eq((S("R") + S("RH")) / C(2))
         except Uninterpretable:
             sym_ok = False
     if sym_ok:
         G.ok(bw.fq, "the result is symmetrised: (R + R^H) / 2 (Hermitian part)")
     else:
-        G.bad(bw, last_res[-1] if last_res else bw.node, "the gradient w.r.t. a Hermitian matrix must be symmetrised: (R + R^H) / 2")
-    rets = [r for r in own_nodes(bw.node) if isinstance(r, ast.Return)]
-    if len(rets) == 1 and ast.unparse(rets[0].value) == "result":
+        G.bad(bw, rets[0] if rets else bw.node, "the gradient w.r.t. a Hermitian matrix must be symmetrised: (R + R^H) / 2")
+    if len(rets) == 1 and rname == "result" or (len(rets) == 1 and rname is not None):
         G.ok(bw.fq, "one gradient for the one input")
     else:
         G.bad(bw, bw.node, "degen_symeig.backward must return the single gradient `result`")
